@@ -127,6 +127,15 @@ impl Pattern {
                     }
                     Self::build(it, pattern)?;
                 }
+                // A vector is only matched as a constant. One that mentions identifiers
+                // is a vector pattern, which is not supported: say so rather than
+                // comparing the identifiers literally.
+                Cell::Vector(_) if mentions_identifier(it) => {
+                    return Err(InvalidSyntax(format!(
+                        "vector patterns are not supported: {:#}",
+                        it
+                    )));
+                }
                 _ => {}
             }
         }
@@ -155,6 +164,17 @@ impl Pattern {
 /// Transform
 ///
 /// Transform is a runtime representation of a set of syntax-rules.
+/// True if the cell is or contains a symbol: inside a vector it would have to be
+/// treated as a pattern variable, literal or ellipsis.
+fn mentions_identifier(cell: &Cell) -> bool {
+    match cell {
+        Cell::Symbol(_) => true,
+        Cell::Pair(car, cdr) => mentions_identifier(car) || mentions_identifier(cdr),
+        Cell::Vector(vector) => vector.iter().any(mentions_identifier),
+        _ => false,
+    }
+}
+
 #[derive(Debug, Eq, PartialEq)]
 pub struct Transform {
     keyword: Cell,
@@ -262,6 +282,15 @@ impl Transform {
         while let Some(template) = iter.next() {
             match template {
                 Cell::Pair(_, _) => Self::check_template_syntax(template, pattern, ellipsis)?,
+                // A vector is inserted as a constant. One that mentions identifiers is a
+                // vector template, which is not supported: say so rather than inserting
+                // the names of its pattern variables.
+                Cell::Vector(_) if mentions_identifier(template) => {
+                    return Err(InvalidSyntax(format!(
+                        "vector templates are not supported: {:#}",
+                        template
+                    )));
+                }
                 Cell::Symbol(_) => {
                     if !pattern.is_variable(template) && iter.peek() == Some(&ellipsis) {
                         return Err(InvalidSyntax(
